@@ -253,6 +253,9 @@ def run_driver(ctx, focus):
     plan = plan_from_tape(t, cfg, budget)
     clock = SimClock(epoch=t.pick([1.0e6, 1.7e9, 0.0], "epoch"))
     problem, tracked = build_problem(cfg, plan, clock, ctx)
+    if cfg["maximize"] and t.flag(0.5, "original_objective_reporting"):
+        problem.use_standardized_objective = False  # results then report the original (maximised) objective
+        cfg["use_standardized_objective"] = False
     if focus == "C04" and t.flag(0.4, "record_nan"):
         problem.stop_if_nan = False  # NaN values are then recorded in the history
         cfg["stop_if_nan"] = False
